@@ -5,7 +5,7 @@ set -u
 D=/verif/seeded/$1; C=$2; T=${3:-quick}
 cd /verif
 if ! git -C /repo diff --quiet; then echo "/repo has uncommitted changes; refusing"; exit 2; fi
-git -C /repo apply $D/patch.diff 2>/dev/null || git -C /repo apply -3 $D/patch.diff || { echo "patch does not apply"; git -C /repo checkout -- .; exit 2; }
+git -C /repo apply $D/patch.diff 2>/dev/null || git -C /repo apply -3 $D/patch.diff || { echo "patch does not apply (conflict) - port it by hand"; git -C /repo reset -q --hard HEAD; exit 2; }
 OUT=$D/detect-$C.log
 ( ./check $C --tier $T ) > $OUT 2>&1; RC=$?
 echo "exit=$RC" >> $OUT
